@@ -32,7 +32,8 @@ package common
 //@   at revertObjectMetaSystemFields(n, o) [C05]: mergeErr == nil && o == orig && n != nil && n.Object == merged && fresh(n)
 //@   at revertField#2(n, o, path) [C05]: mergeErr == nil && o == orig && n != nil && n.Object == merged && len(path) == 1 && path[0] == "status" && called(revertObjectMetaSystemFields)
 //@   at SetLastApplied(n, rec) [C05,C01]: called(nullifyLastAppliedAnnotation) && called(revertField) && rec == update.Object && n != nil && n.Object == merged
-//@   ensures [C05] err == nil ==> newObj != nil && fresh(newObj) && newObj.Object == merged && count(Merge) == 1 && count(SetLastApplied) == 1
+//@   ensures [C05,C13] err == nil ==> newObj != nil && fresh(newObj)
+//@   ensures [C05] err == nil ==> newObj.Object == merged && count(Merge) == 1 && count(SetLastApplied) == 1
 //@   ensures [C05,C13] err != nil ==> newObj == nil
 //@   ensures [C05] laErr != nil ==> err != nil && !called(Merge)
 //@   ensures [C05] called(Merge) && mergeErr != nil ==> err != nil && !called(SetLastApplied)
